@@ -237,6 +237,39 @@ theorem kidsEq_iff : ∀ (ks ls : List Node), DictOKL ks → DictOKL ls → ks.l
       simp at he
 end
 
+/-! ### equal trees have the same number of nodes -/
+
+mutual
+def csize : Canon → Nat
+  | .str _ => 1
+  | .tag _ _ ks => 1 + csizeL ks
+def csizeL : List Canon → Nat
+  | [] => 0
+  | k :: ks => csize k + csizeL ks
+end
+
+mutual
+theorem csize_canon : ∀ (t : Node), csize (canon t) = sizeN t
+  | .str _ _ _ => by simp [canon, csize, sizeN]
+  | .tag _ _ ks => by simp [canon, csize, sizeN, csizeL_canonL ks]
+theorem csizeL_canonL : ∀ (ks : List Node), csizeL (canonL ks) = sizeL ks
+  | [] => by simp [canonL, csizeL, sizeL]
+  | k :: ks => by simp [canonL, csizeL, sizeL, csize_canon k, csizeL_canonL ks]
+end
+
+theorem sizeL_mem {k : Node} : ∀ {ks : List Node}, k ∈ ks → sizeN k ≤ sizeL ks
+  | [], h => by simp at h
+  | x :: xs, h => by
+    simp only [sizeL]
+    rcases List.mem_cons.mp h with rfl | h
+    · omega
+    · have := sizeL_mem h; omega
+
+theorem below_size {a x : Node} (h : Below a x) : sizeN x < sizeN a := by
+  induction h with
+  | kid hk => simp only [sizeN]; have := sizeL_mem hk; omega
+  | deeper hk _ ih => simp only [sizeN]; have := sizeL_mem hk; omega
+
 /-! ### attribute order -/
 
 theorem perm_keys_nodup {a b : List (PStr × AVal)} (p : a.Perm b) (h : (a.map Prod.fst).Nodup) :
